@@ -1155,7 +1155,9 @@ void Handler::helpArgument( const string& help_arg_key, bool full)
    {
       mOutput << "Argument '" << key << "', usage:" << std::endl;
 
-      auto const  desc = mDescription.getArgDesc( key);
+      // search with the complete key of the argument: the key given by the
+      // user may be an abbreviation of the long argument
+      auto const  desc = mDescription.getArgDesc( p_arg_hdl->key());
       format::TextBlock  tb( 3, 80, true);
       tb.format(  mOutput, desc);
 
